@@ -178,7 +178,7 @@ func projectDocCore(doc jmap) []V {
 	return []V{VS("ok"), VL(V{Kind: 'l', L: lines}, jAmt(t, "sum"), jAmt(t, "discount"), jAmt(t, "charge"),
 		jAmt(t, "tax_included"), jAmt(t, "total"), jAmt(t, "tax"), jAmt(t, "total_with_tax"), jAmt(t, "payable"),
 		jAmt(t, "advance"), jAmt(t, "due"), amountsOf(jList(doc, "discounts"), "amount"),
-		amountsOf(jList(doc, "charges"), "amount"), advRows, dues, cats, taxsum)}
+		amountsOf(jList(doc, "charges"), "amount"), advRows, dues, cats, taxsum, jAmt(t, "rounding"))}
 }
 
 // calcJSON: JSON text of a document -> (serialised calculated document, error kind)
